@@ -20,7 +20,7 @@ MANIFEST = {
         "text": "Memory-safety and no-abort obligations, bounded: for every byte string up to the per-unit bound, CBMC discharges every bounds, "
                 "dereference, overflow, allocation-size and asserted library-precondition obligation in: DepfileParser::Parse (whole real file), "
                 "DepsLog::Load (sliced; record limit scaled), CanonicalizePath, EncodeJSONString, GetShellEscapedString, CLParser::FilterShowIncludes, "
-                "StripAnsiEscapeCodes. Not covered: the manifest lexer/parser, BuildLog::Load, MAKEFLAGS and status-format parsing, include recursion "
+                "StripAnsiEscapeCodes. Lexer: the real body of Lexer::Error on every 3-byte text and diagnostic position, and the bounds/pointer obligations of Lexer::ReadEvalString/EatWhitespace (2-byte texts here; the C12 runs carry the same obligations for their longer texts). Not covered: the manifest parser, BuildLog::Load (its reader and field splitter are C08's), MAKEFLAGS and status-format parsing, include recursion "
                 "(a known finding: a manifest that includes itself overflows the stack), hangs (termination is only shown per bound).",
         "design_ref": "DESIGN.md 5 C13",
     },
@@ -122,6 +122,70 @@ B = {
 }
 
 
+LEXER_ERROR_HARNESS = r'''
+#define private public
+#include "lexer.h"
+#undef private
+#include "eval_env.h"
+unsigned char nondet_uchar(); int nondet_int();
+void EvalString::AddText(StringPiece text) { (void)text; }
+void EvalString::AddSpecial(StringPiece text) { (void)text; }
+/* contract stub of snprintf(buf, n, "%s:%d: ", ...): writes a NUL-terminated text shorter than n */
+extern "C" int snprintf(char* s, size_t n, const char* fmt, ...) {
+  (void)fmt;
+  int k = nondet_int(); __CPROVER_assume(k >= 0 && k < 24 && (size_t)k < n);
+  for (int i = 0; i < 24; i++) if (i < k) s[i] = 'x';
+  s[k] = 0;
+  return k;
+}
+extern "C" void harness() {
+  static unsigned char in[L + 1];
+  for (int i = 0; i < L; i++) in[i] = nondet_uchar();
+  in[L] = 0;
+  Lexer lx;
+  lx.Start(StringPiece("build.ninja", 11), StringPiece((const char*)&in[0], (size_t)L));
+  int pos = nondet_int();
+  __CPROVER_assume(pos >= 0 && pos <= L);               /* last_token_ points at a byte of the NUL-terminated text (where the scanner stopped).  The NULL case (Error before any token
+                                                           was read) only compares a pointer with NULL relationally - no access; it is the 'pointer relation' technical-UB class and is left out */
+  lx.last_token_ = (const char*)&in[0] + pos;
+  std::string err;
+  bool r = lx.Error(std::string("bad"), &err);
+  __CPROVER_assert(!r, "post C12: Error returns false");
+  __CPROVER_assert(!err.empty(), "post C12: Error stores a diagnostic");
+  __CPROVER_assert(0, "canary: end of harness reachable");
+}
+'''
+
+
+def _build_lexer_error(L, mutant):
+    from props import c12
+    from engine.routeb import gotocc_cpp, cbmc_argv, STD, mirrored_string_piece, unwindset_from_loops
+
+    def build(d):
+        t = slicer.read_src("src/lexer.cc")
+        if mutant:
+            t = mutant(t)
+        with open(os.path.join(d, "lexer.cc"), "w") as f:
+            f.write("#define private public\n" + t)
+        for h in ("lexer.h", "util.h"):
+            with open(os.path.join(d, h), "w") as f:
+                f.write(slicer.read_src("src/" + h))
+        with open(os.path.join(d, "string_piece.h"), "w") as f:
+            f.write(mirrored_string_piece())
+        with open(os.path.join(d, "eval_env.h"), "w") as f:
+            f.write(c12.EVAL_STUB)
+        with open(os.path.join(d, "harness.cc"), "w") as f:
+            f.write(LEXER_ERROR_HARNESS)
+        steps = [gotocc_cpp(["lexer.cc", "harness.cc"], defines=["L=%d" % L, "VF_STR_CAP=112"],
+                            includes=[d, os.path.join(VERIF, "stubs", "cstring"), os.path.join(VERIF, "stubs", "cstdio"), STD, os.path.join(VERIF, "stubs")])]
+
+        def post(dd, av):
+            us, _ = unwindset_from_loops(dd, "a.gb", [("vf_s_", 116), ("append", 116), ("vf_", 116), ("snprintf", 1100), ("Lexer::Error", 80)])
+            return av + (["--unwindset", us] if us else [])
+        return steps, cbmc_argv(unwind=80, object_bits=10), post
+    return build
+
+
 def jobs(tier, mutant=None):
     b = B[tier]
     tgt = getattr(mutant, "target", None)
@@ -160,6 +224,16 @@ def jobs(tier, mutant=None):
                 bound="records with concrete size words %s, every payload byte symbolic" % name, functions=["DepsLog::Load"], weight=40)
         j.T = T
         js.append(j)
+    # Lexer: the real body of Lexer::Error (stubbed by its contract in C12) on every short text and every diagnostic position; the scanner functions themselves
+    # carry their bounds/pointer obligations in the C12 runs (selected here for the shortest lengths)
+    js.append(Job("c13.lexer.error.L3", _build_lexer_error(3, mutant if tgt == "lexer_error" else None), "bounded", timeout=1800,
+                  bound="every text of 3 bytes + NUL, every position of the offending token: line/column computation and context snippet", functions=["Lexer::Error"], weight=30))
+    from props import c12
+    lm = mutant if tgt is None and mutant is not None and False else None
+    for mode, mname in ((0, "value"), (1, "path")):
+        js.append(Job("c13.lexer.%s.L2" % mname, c12._build(mode, 2, ["TAIL=" + c12.TAILS["lf"], "CARET_OK=1"], lm), "bounded", timeout=1800,
+                      bound="every 2-byte text + LF through Lexer::ReadEvalString (bounds / pointer obligations; the read position stays inside the NUL-terminated text)",
+                      functions=["Lexer::ReadEvalString", "Lexer::EatWhitespace"], backend="sat(minisat), --paths lifo", weight=60))
     return js
 
 
